@@ -3,6 +3,7 @@ package vc
 import (
 	"fmt"
 	"math/big"
+	"strconv"
 	"strings"
 )
 
@@ -225,8 +226,36 @@ func isIntLit(t T) (int64, bool) {
 
 // Arithmetic helpers dispatching on sort (Int or BitVec).
 
+// bvLit reads a bit-vector literal "(_ bvN W)".
+func bvLit(t T) (*big.Int, int, bool) {
+	if !strings.HasPrefix(t.S, "(_ bv") || !strings.HasSuffix(t.S, ")") {
+		return nil, 0, false
+	}
+	f := strings.Fields(t.S[5 : len(t.S)-1])
+	if len(f) != 2 {
+		return nil, 0, false
+	}
+	v, ok := new(big.Int).SetString(f[0], 10)
+	w, err := strconv.Atoi(f[1])
+	if !ok || err != nil {
+		return nil, 0, false
+	}
+	return v, w, true
+}
+
 func Add(a, b T) T {
 	if a.Sort.IsBV() {
+		if x, w, ok := bvLit(a); ok {
+			if y, _, ok := bvLit(b); ok {
+				return BVC(new(big.Int).Add(x, y), w)
+			}
+			if x.Sign() == 0 {
+				return b
+			}
+		}
+		if y, _, ok := bvLit(b); ok && y.Sign() == 0 {
+			return a
+		}
 		return app("bvadd", a.Sort, a, b)
 	}
 	return linAdd(a, b)
@@ -234,6 +263,14 @@ func Add(a, b T) T {
 
 func Sub(a, b T) T {
 	if a.Sort.IsBV() {
+		if y, w, ok := bvLit(b); ok {
+			if x, _, ok := bvLit(a); ok {
+				return BVC(new(big.Int).Sub(x, y), w)
+			}
+			if y.Sign() == 0 {
+				return a
+			}
+		}
 		return app("bvsub", a.Sort, a, b)
 	}
 	return linSub(a, b)
